@@ -31,6 +31,10 @@ fn main() {
         std::process::exit(3);
     }
     let prop = args[1].clone();
+    if prop == "--version" {
+        println!("iref-verif worker");
+        return;
+    }
     let mut tier = Tier::Quick;
     let mut seed: u64 = 1;
     let mut threads: usize = 16;
@@ -38,17 +42,26 @@ fn main() {
     let mut trace: Option<String> = None;
     let mut replay: Option<String> = None;
     let mut nshards: u64 = 64;
+    let mut only_shard: Option<u64> = None;
+    let mut skip_self_test = false;
     let mut i = 2;
     while i < args.len() {
         let v = args.get(i + 1).cloned().unwrap_or_default();
         match args[i].as_str() {
-            "--tier" => tier = if v == "thorough" { Tier::Thorough } else { Tier::Quick },
+            "--tier" => tier = if v == "thorough" { Tier::Thorough } else if v == "tiny" { Tier::Tiny } else { Tier::Quick },
             "--seed" => seed = v.parse().unwrap_or(1),
             "--threads" => threads = v.parse().unwrap_or(16),
             "--out" => out = Some(v),
             "--trace" => trace = Some(v),
             "--replay" => replay = Some(v),
             "--shards" => nshards = v.parse().unwrap_or(64),
+            "--only-shard" => only_shard = v.parse().ok(),
+            "--skip-self-test" => {
+                // the model self-tests already ran natively in the same check (they are slow under Miri)
+                skip_self_test = true;
+                i += 1;
+                continue;
+            }
             x => {
                 eprintln!("unknown argument {}", x);
                 std::process::exit(3);
@@ -56,7 +69,7 @@ fn main() {
         }
         i += 2;
     }
-    if let Err(e) = abnf::self_test().and_then(|_| model::self_test()) {
+    if let Err(e) = if skip_self_test { Ok(()) } else { abnf::self_test().and_then(|_| model::self_test()) } {
         println!("INCONCLUSIVE property={} reason=model-self-test {}", prop, e);
         std::process::exit(3);
     }
@@ -99,6 +112,11 @@ fn main() {
                     let shard = next.fetch_add(1, Ordering::SeqCst);
                     if shard >= nshards {
                         break;
+                    }
+                    if let Some(o) = only_shard {
+                        if shard != o {
+                            continue;
+                        }
                     }
                     let mut c = Ctx::new(m.id, tier, seed, shard, nshards, m.exec);
                     if let Some(t) = &trace {
